@@ -1145,6 +1145,16 @@ def c04_mixtures(tier, seed):
                     if x not in single:
                         single[x] = S.real_descriptors(lib, x)
             pairs = forced + pairs
+        # components whose decomposition is EMPTY (every atom has a centre named 'none': dioxygen, a bare metal atom, hydrogen on the metal): they decompose,
+        # alone and in a mixture, and add nothing
+        empties = ['O=O'] + (['[%s]' % S.SURFACE[name], '[H][%s]' % S.SURFACE[name]] if name in S.SURFACE else [])
+        others = [m_ for m_ in ms if m_ not in empties][:3]
+        extra = [(e_, e_) for e_ in empties] + [(e_, o_) for e_ in empties for o_ in others] + [(o_, e_) for e_ in empties for o_ in others[:1]]
+        for a, b in extra:
+            for x in (a, b):
+                if x not in single:
+                    single[x] = S.real_descriptors(lib, x)
+        pairs = extra + pairs
         for a, b in pairs:
             n += 1
             got = S.real_descriptors(lib, a + '.' + b)
